@@ -604,11 +604,13 @@ func genTmCase(r *rng, wild bool) *tmCase {
 						limit = j + 1 // up to and including the end box
 					}
 					stored := append([]byte{}, cells...)
+					hit := map[int]bool{}
 					for n := 1 + r.intn(3); n > 0; n-- {
 						k := r.intn(limit)
-						if stored[k] == 0 && cells[k] != 0 {
-							continue // already damaged
+						if hit[k] {
+							continue // already damaged: a second flipped bit would pass the parity check
 						}
+						hit[k] = true
 						kinds["parity-error"]++
 						u[6+k] = flipBit(r, u[6+k])
 						stored[k] = 0
